@@ -4,8 +4,8 @@ CONSTANTS
   Scripts <- MCScripts4
   Sequential = FALSE
   Mode = "mc"
-  EmitTR = TRUE
-  Api = "spawn"
+  EmitTR = FALSE
+  Api = "output"
   WCaps = {1, 3}
   WriteAll = TRUE
   SpawnWaits = FALSE
